@@ -674,6 +674,18 @@ def rule_stop(ctx):
         if y.get("k") == "MethodCall" and y["name"] in ("partition_point", "binary_search_by", "binary_search_by_key", "binary_search") and any(z.get("k") == "Field" and z["name"] == "dissimilarity" for a in y["args"] for z in walk(a)):
             res.instance("%s : %s over the steps" % (key, y["name"]))
             res.violate("%s : binary-search-over-merge-steps" % key, "`%s`: the dissimilarities of successive merges are not monotone for every linkage method on offer (centroid / median linkage invert), so the first step at or above the threshold is not found by bisection: merges above the threshold are replayed or merges below it are dropped" % r.e(y)[:60], fn_loc(fn, y.get("ln")))
+    # the labels come out of the replay of the linkage: no result is returned before the linkage was computed (a shortcut
+    # "the threshold exceeds every possible dissimilarity" is wrong for linkages whose merge heights grow beyond the pairwise
+    # dissimilarities - Ward)
+    link = next((y for y in walk(fn["body"]) if y.get("k") == "Call" and (c.dfn(strip(y["f"]).get("def")) or {}).get("name") == "linkage"), None)
+    if link is not None:
+        for y in walk(fn["body"]):
+            if y.get("k") == "Ret" and y.get("e") is not None and (y.get("ln") or 0) < (link.get("ln") or 0):
+                e0 = peel_refs(y["e"])
+                nm0 = (c.dfn(strip(e0["f"]).get("def")) or {}).get("name") if e0.get("k") == "Call" and strip(e0["f"]).get("k") == "Path" else None
+                if nm0 not in ("Err", "from_residual"):
+                    res.instance("%s : result before the linkage" % key)
+                    res.violate("%s : labels-without-linkage" % key, "`%s` returns labels before the linkage is computed: the merge heights of Ward linkage exceed the largest pairwise dissimilarity, so no bound on the inputs decides the clustering" % r.e(y)[:60], fn_loc(fn, y.get("ln")))
     lp = _steps_loop(fn, inits)
     if lp is None:
         res.missing_anchor("the loop over the linkage steps")
@@ -1170,6 +1182,35 @@ def rule_views(ctx):
                                 dd = peel_refs(dd["e"])
                             if dd.get("k") == "Binary" and dd["op"] in ("+", "-"):
                                 trunc = y
+            # the triangle walked with explicit loops: `for (i, row) in m.outer_iterator().enumerate() { for (j, v) in row.iter() .. }`
+            # - i is the row, j the column; what is kept must be col > row, in row-major order
+            from .c17 import for_loops as _for_loops
+            rows_, cols_ = set(), set()
+            for it_, pat_, body_, node_ in _for_loops(fn["body"]):
+                if any(z.get("k") == "MethodCall" and z["name"] == "enumerate" for z in walk(it_)) and pat_.get("k") == "Tuple" and pat_["pats"]:
+                    rows_ |= {b["local"] for b in pat_bindings(pat_["pats"][0])}
+                    for it2, pat2, body2, node2 in _for_loops(body_):
+                        if pat2.get("k") == "Tuple" and pat2["pats"]:
+                            cols_ |= {b["local"] for b in pat_bindings(pat2["pats"][0])}
+                    for z in walk(body_):
+                        if z.get("k") == "Closure" and z["params"] and z["params"][0].get("k") == "Tuple" and z["params"][0]["pats"]:
+                            cols_ |= {b["local"] for b in pat_bindings(z["params"][0]["pats"][0])}
+            lower = None
+            for y in walk(fn["body"]):
+                if y.get("k") == "Binary" and y["op"] in ("<", "<=", ">", ">="):
+                    a_, b_ = peel_refs(y["l"]), peel_refs(y["r"])
+                    while a_.get("k") == "Unary":
+                        a_ = peel_refs(a_["e"])
+                    while b_.get("k") == "Unary":
+                        b_ = peel_refs(b_["e"])
+                    la, lb = a_.get("local"), b_.get("local")
+                    if la in cols_ and lb in rows_ and y["op"] in ("<", "<="):
+                        lower = y
+                    if la in rows_ and lb in cols_ and y["op"] in (">", ">="):
+                        lower = y
+            if lower is not None:
+                res.violate("%s : lower-triangle" % key, "`%s` keeps the entries with column below row: the lower triangle walked row by row is not the condensed (row-major upper triangle) order the linkage expects, although it holds the same values" % r.e(lower)[:40], fn_loc(fn, lower.get("ln")))
+                continue
             if trunc is not None:
                 res.violate("%s : truncating-division-before-product" % key, "`%s`: one factor of a product that is even only as a whole is divided first; the integer division truncates whenever that factor is odd and the values land in other cells of the condensed triangle" % r.e(trunc)[:50], fn_loc(fn, trunc.get("ln")))
                 continue
